@@ -398,7 +398,9 @@ class AssignBlock(object):
         """
         new_assignblk = {}
         for dst, src in viewitems(self):
-            if dst == src:
+            if dst == src and not dst.is_mem():
+                # A memory store is kept, even if it writes back the value
+                # it reads
                 continue
             new_src = simplifier(src)
             new_dst = simplifier(dst)
